@@ -1,7 +1,8 @@
 (* Palette: the component descriptions the em_driver registers (harness/em_driver.cpp), as cinfo records.
    0,1 trivial; 2 instrumented non-trivial; 3 instrumented with afterAssign/beforeRemove; 4 alignas(32) trivial;
    5 alignas(64) instrumented; 6 empty; 7 4096 bytes trivial; 8..11 described at run time by flag bits
-   (1 create, 2 copy, 4 move, 8 move_constructor, 16 destroy, 32 default value). *)
+   (1 create, 2 copy, 4 move, 8 move_constructor, 16 destroy, 32 default value); 12 one byte of trivial data;
+   13 instrumented, constructible from the owning entity's handle as well as from nothing. *)
 Require Import Coq.Lists.List Coq.NArith.NArith Coq.ZArith.ZArith Coq.Arith.Arith Coq.Bool.Bool.
 From Mustache Require Import Res Manager.
 Import ListNotations.
@@ -29,5 +30,7 @@ Definition pal_info (pal flags : nat) : cinfo :=
   | 6 => trivial_info pal false
   | 2 | 5 => inst_info pal false
   | 3 => inst_info pal true
+  | 12 => trivial_info pal true
+  | 13 => inst_info pal false
   | _ => dyn_info pal flags
   end.
